@@ -55,6 +55,9 @@ def compare(ck, hs, obs, want):
         r = obs.get(hi)
         if r is None:
             raise Inconclusive("history %d was not replayed" % hi)
+        if "isolation" in want:
+            for b in r.get("nested") or []:
+                ck.violation(b, {"history": h["run"]})
         prev = {"A": [], "B": []}
         for si, (st, ob) in enumerate(zip(h["steps"], r["steps"])):
             nsteps += 1
@@ -138,7 +141,7 @@ def c06(tier):
     ck.sample({"history": hs[0]["run"], "steps": [{"op": s["op"], "nid": s["nid"], "args": s["args"], "ok": s["ok"]} for s in hs[0]["steps"][:6]]})
     ck.extra["histories"] = len(hs)
     ck.rule = ("Store.tla histories over two networks on one database connection (network id from the request context) plus a third network "
-               "seeded by raw SQL with rows that carry network A's UUIDs; after every step all networks are listed and counted; "
+               "seeded by raw SQL with rows that carry network A's UUIDs; after every step all networks are listed and counted; after every history one step for network B is done inside a transaction begun for network A; "
                "non-trivial: a state-changing write while the other network holds data")
     ck.assumptions = ["sqlite in-memory backend only", "networks are selected through a context-driven Contextualizer on one registry"]
     ck.finish()
